@@ -135,6 +135,13 @@ class MapsToNonexistentOutputError(ValueError):
     """
 
 
+class ColumnNameConflictError(ValueError):
+    """
+    When the column names of a for-node -- the looped input labels together with the
+    (mapped) body node output labels -- are not all different.
+    """
+
+
 class For(Composite, StaticNode, ABC):
     """
     Specifies fixed fields of some other node class to iterate over, but allows the
@@ -178,6 +185,21 @@ class For(Composite, StaticNode, ABC):
                 f"{cls.__name__} tried to map body node output(s) "
                 f"{maps_to_nonexistent_output} to new column names, but "
                 f"{cls._body_node_class.__name__} has no such outputs."
+            )
+
+        column_names = list(cls._iter_on + cls._zip_on) + [
+            label if output_column_map is None else output_column_map.get(label, label)
+            for label in cls._body_node_class.preview_outputs()
+        ]
+        repeated_columns = {c for c in column_names if column_names.count(c) > 1}
+        if len(repeated_columns) > 0:
+            raise ColumnNameConflictError(
+                f"{cls.__name__} would produce the column name(s) {repeated_columns} "
+                f"more than once (looped inputs {cls._iter_on + cls._zip_on}, outputs "
+                f"{tuple(cls._body_node_class.preview_outputs())}, map "
+                f"{output_column_map}). Looped input labels and mapped output labels "
+                f"must all be different, otherwise one column silently replaces the "
+                f"other."
             )
 
         cls._output_column_map = {} if output_column_map is None else output_column_map
